@@ -44,6 +44,17 @@ CASES = [
   ('sum_rect: min/max nesting exchanged (equal for N0 >= 1)', 'mahotas/features/_surf.cpp', ('y0 = std::min<int>(std::max<int>(y0-1, 0), N0 - 1);', 'y0 = std::max<int>(std::min<int>(y0-1, N0 - 1), 0);'), 'Surf', 'pass'),
   ('haar_x: window width w -> w - 1 on the right half', 'mahotas/features/_surf.cpp', ('const double right = sum_rect(integral, y - w/2,        x, (y - w/2) + w, (x - w/2) + w);', 'const double right = sum_rect(integral, y - w/2,        x, (y - w/2) + w, (x - w/2) + w - 1);'), 'Surf', 'break'),
   ('roll_right: points-1 -> points', 'mahotas/features/_lbp.cpp', ('return (v >> 1) | ((v & 1) << (points-1));', 'return (v >> 1) | ((v & 1) << (points));'), 'Lbp', 'break'),
+  ('dilate_add: b >= 0 test dropped (the pre-repair behaviour on negative heights)', 'mahotas/_morph.cpp', ('if (b >= 0 && r < a) return', 'if (r < a) return'), 'DilateAdd', 'break'),
+  ('dilate_add: b >= 0 -> b > 0', 'mahotas/_morph.cpp', ('if (b >= 0 && r < a) return', 'if (b > 0 && r < a) return'), 'DilateAdd', 'break'),   # equal for values of the dtype (r = a when b = 0); the tie holds for ALL integers a: conservative
+  ('find2d: y + Nt0 <= N0 -> y + Nt0 < N0 (last row of corners lost: the defect repaired in round 1)', 'mahotas/_convolve.cpp', ('y < N0 && y + Nt0 <= N0;', 'y < N0 && y + Nt0 < N0;'), 'Find2d', 'break'),
+  ('find2d: x + Nt1 <= N1 dropped (reads past the right edge)', 'mahotas/_convolve.cpp', ('x < N1 && x + Nt1 <= N1;', 'x < N1;'), 'Find2dAcc', 'break'),
+  ('find2d: x + Nt1 <= N1 dropped (marks corners where the template does not fit)', 'mahotas/_convolve.cpp', ('x < N1 && x + Nt1 <= N1;', 'x < N1;'), 'Find2d', 'break'),
+  ('find2d: sy < Nt0 -> sy < Nt0 - 1 (last template row never compared)', 'mahotas/_convolve.cpp', ('for (npy_intp sy = 0; sy < Nt0; ++sy) {', 'for (npy_intp sy = 0; sy < Nt0 - 1; ++sy) {'), 'Find2d', 'break'),
+  ('find2d: array.at(y + sy, x + sx) -> array.at(y + sy, x) (column offset lost)', 'mahotas/_convolve.cpp', ('array.at(y + sy,x + sx) != target.at(sy,sx)', 'array.at(y + sy,x) != target.at(sy,sx)'), 'Find2d', 'break'),
+  ('find2d: goto replaced by nothing (every fitting corner marked)', 'mahotas/_convolve.cpp', ('                        goto next_pos;\n', '                        ;\n'), 'Find2d', 'untranslatable'),   # find2d_accesses: a statement under an element comparison that is not a jump
+  ('find2d: conjuncts of the loop conditions exchanged, != for < on the simple bound', 'mahotas/_convolve.cpp', ('for (npy_intp y = 0; y < N0 && y + Nt0 <= N0; ++y) {', 'for (npy_intp y = 0; y + Nt0 <= N0 && y != N0; ++y) {'), 'Find2d', 'pass'),
+  ('find2d: out.at(y, x) -> out.at(x, y)', 'mahotas/_convolve.cpp', ('out.at(y, x) = true;', 'out.at(x, y) = true;'), 'Find2d', 'break'),
+  ('find2d: `continue` instead of goto (outside the subset)', 'mahotas/_convolve.cpp', ('                        goto next_pos;\n', '                        continue;\n'), 'Find2d', 'untranslatable'),
   ('lbp map: v < min -> v <= min (equivalent)', 'mahotas/features/_lbp.cpp', ('if (v < min) min = v;', 'if (v <= min) min = v;'), 'Lbp', 'pass'),
 ]
 only = sys.argv[1:] 
